@@ -22,7 +22,12 @@ RULE = ("histories = one reporter dictionary (model / agent / agent-type reporte
         "columns, class populations with removals, frames of empty collectors), 60 histories with reporters that raise at a "
         "collect, 80 histories with values of other immutable types (bool, str, tuple, Decimal, Fraction, frozenset, floats "
         "incl. 0.1 / 1e300 / the smallest denormal, ints beyond 2^53) at agent, agent-type, model and table level; the whole "
-        "collector state is observed after every operation; a second DataCollector built from the same dictionaries collects "
+        "collector state is observed after every operation; two oracle-only streams without the Z-valued model: 60 histories "
+        "whose model reporters (all four forms and partial) return rare MUTABLE containers - object-dtype arrays of lists/dicts, "
+        "tuples of tuples holding lists, dict of arrays, set, deque, a dataclass-like object, 2-D and structured arrays, a view of an "
+        "array the model keeps writing to - mutated in place after the collect, and 4 SCALE cases (255/256/257/1025 agents, up to 257 "
+        "collects, tables of 256..1025 rows, values beyond 2^53 / 2^62 / 2^63; thorough and the enumerator after a break go to 4097); "
+        "a second DataCollector built from the same dictionaries collects "
         "at the end; non-trivial = at least 2 collects and one reporter; distinct = by SHA1 of the history")
 TRUSTED_BASE = [
     "Coq 8.16.1 kernel (coqc); vm_compute used for finite facts and for evaluating the model in the correspondence",
@@ -252,7 +257,7 @@ def gen_cases(rng, tier):
 
 
 def _gen_container_case(rng):
-    kinds = list(range(12))
+    kinds = list(range(13))
     init = [[n, rng.choice(kinds), [rng.randint(0, 9) for _ in range(rng.randint(0, 3))]] for n in range(rng.randint(1, 3))]
     reps = [[rng.choice([i[0] for i in init]), rng.choice(["attr", "fun", "partial", "method", "args"])] for _ in range(rng.randint(1, 4))]
     ops = []
@@ -749,6 +754,8 @@ def _mk_container(model, n, kind, l):
         v = base[2:6]
     elif kind == 10:
         v = [[x] for x in l]                 # nested lists
+    elif kind == 12:
+        v = ((1, list(l)), (2, {"d": list(l)}), frozenset({3}))   # a tuple of tuples that hold a list / a dict
     else:
         v = np.array(l, dtype=np.int64)
     setattr(model, _mname(n), v)
@@ -779,6 +786,9 @@ def _mutate_container(model, n, z):
             v += z + 1
         else:
             return False
+    elif isinstance(v, tuple) and isinstance(v[0], tuple):
+        v[0][1].append(z)
+        v[1][1]["d"].append(z)
     elif isinstance(v, tuple):
         v[0].append(z)
     elif isinstance(v, dict):
